@@ -43,7 +43,9 @@ type TMut struct {
 	Val  int
 }
 
-var tmutKinds = []string{"setbyte", "trunc", "append", "insert", "delete", "version", "leaftype", "entrytype", "len+", "len-", "swapextra", "emptyextra", "dropextra"}
+var tmutKinds = []string{"setbyte", "trunc", "append", "insert", "delete", "version", "leaftype", "entrytype", "len+", "len-", "swapextra", "emptyextra", "dropextra",
+	// structure-aware edits of extra_data: every enclosing length is re-computed, so only the element rule itself is at stake
+	"chain-zero-insert", "chain-zero-insert", "chain-zero-replace", "chain-one-empty", "chain-empty", "precert-zero", "chain-many", "chain-tiny"}
 
 var entryTypeVals = []int{0, 1, 2, 0x8000, 0xffff, 0x0100}
 
@@ -255,6 +257,8 @@ func applyTMut(m TMut, leaf, extra []byte) ([]byte, []byte) {
 			extra, _ = rfc6962.EncodeChain(append([][]byte{pc}, ch...))
 		}
 		return leaf, extra
+	case "chain-zero-insert", "chain-zero-replace", "chain-one-empty", "chain-empty", "precert-zero", "chain-many", "chain-tiny":
+		return leaf, restructureExtra(m, leaf, extra)
 	case "emptyextra":
 		return leaf, []byte{0, 0, 0}
 	case "dropextra":
@@ -262,6 +266,77 @@ func applyTMut(m TMut, leaf, extra []byte) ([]byte, []byte) {
 	}
 	*part = p
 	return leaf, extra
+}
+
+func u24b(n int) []byte { return []byte{byte(n >> 16), byte(n >> 8), byte(n)} }
+
+// rawVector encodes opaque elems<0..2^24-1> with three-byte prefixes and NO check of the element minimum.
+func rawVector(elems [][]byte) []byte {
+	var body []byte
+	for _, e := range elems {
+		body = append(append(body, u24b(len(e))...), e...)
+	}
+	return append(u24b(len(body)), body...)
+}
+
+// restructureExtra re-builds extra_data (of the shape the leaf's entry type calls for) around an edited
+// element list; all lengths stay consistent. When extra_data does not decode the edit starts from an
+// empty chain (and a one-byte pre_certificate).
+func restructureExtra(m TMut, leaf, extra []byte) []byte {
+	precert := len(leaf) > 11 && leaf[10] == 0 && leaf[11] == 1
+	var pre []byte
+	var chain [][]byte
+	if precert {
+		p, ch, rest, err := rfc6962.DecodePrecertChainEntry(extra)
+		if err == nil && len(rest) == 0 {
+			pre, chain = p, ch
+		} else {
+			pre = []byte{0x30}
+		}
+	} else if ch, rest, err := rfc6962.DecodeChain(extra); err == nil && len(rest) == 0 {
+		chain = ch
+	}
+	chain = append([][]byte{}, chain...)
+	switch m.Kind {
+	case "chain-zero-insert":
+		i := m.Pos % (len(chain) + 1)
+		chain = append(append(append([][]byte{}, chain[:i]...), []byte{}), chain[i:]...)
+	case "chain-zero-replace":
+		if len(chain) == 0 {
+			chain = [][]byte{{}}
+		} else {
+			chain[m.Pos%len(chain)] = []byte{}
+		}
+	case "chain-one-empty":
+		chain = [][]byte{{}}
+	case "chain-empty":
+		chain = nil // legal: certificate_chain<0..2^24-1>
+	case "precert-zero":
+		pre = []byte{} // illegal for a precert entry: ASN.1Cert<1..2^24-1>; no effect on an x509 entry
+	case "chain-many":
+		n := 50 + m.Val*4
+		el := []byte{0x30, 0x00}
+		if len(chain) > 0 && len(chain[0]) < 600 {
+			el = chain[0]
+		}
+		chain = nil
+		for i := 0; i < n; i++ {
+			chain = append(chain, el)
+		}
+		if m.Pos%3 == 0 {
+			chain[m.Pos%len(chain)] = []byte{} // one empty element hidden among many
+		}
+	case "chain-tiny":
+		n := m.Val%5 + 1
+		chain = nil
+		for i := 0; i < n; i++ {
+			chain = append(chain, []byte{byte(m.Val + i)}) // one-byte elements: the legal minimum
+		}
+	}
+	if precert {
+		return append(append(u24b(len(pre)), pre...), rawVector(chain)...)
+	}
+	return rawVector(chain)
 }
 
 // refEntry is the reference reading of (leaf_input, extra_data).
@@ -336,6 +411,53 @@ func refDecodeEntry(leafIn, extra []byte) (r refEntry) {
 		}
 	}
 	return r
+}
+
+// hasZeroElement: extra_data is consistent in all its lengths but holds a certificate of length 0
+// (evidence class only).
+func hasZeroElement(leaf, extra []byte) bool {
+	walk := func(b []byte) (elems [][]byte, rest []byte, ok bool) {
+		if len(b) < 3 {
+			return nil, nil, false
+		}
+		n := int(b[0])<<16 | int(b[1])<<8 | int(b[2])
+		if n > len(b)-3 {
+			return nil, nil, false
+		}
+		in, rest := b[3:3+n], b[3+n:]
+		for len(in) > 0 {
+			if len(in) < 3 {
+				return nil, nil, false
+			}
+			l := int(in[0])<<16 | int(in[1])<<8 | int(in[2])
+			if l > len(in)-3 {
+				return nil, nil, false
+			}
+			elems = append(elems, in[3:3+l])
+			in = in[3+l:]
+		}
+		return elems, rest, true
+	}
+	zero := false
+	if len(leaf) > 11 && leaf[10] == 0 && leaf[11] == 1 {
+		if len(extra) < 3 {
+			return false
+		}
+		n := int(extra[0])<<16 | int(extra[1])<<8 | int(extra[2])
+		if n > len(extra)-3 {
+			return false
+		}
+		zero = n == 0
+		extra = extra[3+n:]
+	}
+	elems, rest, ok := walk(extra)
+	if !ok || len(rest) != 0 {
+		return false
+	}
+	for _, e := range elems {
+		zero = zero || len(e) == 0
+	}
+	return zero
 }
 
 func eqB(a, b []byte) bool { return bytes.Equal(a, b) } // nil == empty
@@ -479,6 +601,9 @@ func judgeEntry(v *harness.Verdict, leafIn, extra []byte, index int64) {
 	}
 	if !r.ok {
 		v.Class("entry:ref-refuses")
+		if hasZeroElement(leafIn, extra) {
+			v.Class("entry:zero-length-element")
+		}
 		if rle != nil {
 			v.Failf("entry-accepts-invalid", "RawLogEntryFromLeaf accepted leaf_input %x... (%d) / extra_data %x... (%d): %s", head(leafIn, 24), len(leafIn), head(extra, 24), len(extra), r.why)
 		}
@@ -549,7 +674,7 @@ func checkDec(t *testing.T, c DecCase) (v harness.Verdict) {
 // Decoder is the entry-decoder half of C12.
 var Decoder = harness.Define(harness.Opts{
 	Name:  "decoder",
-	Rule:  "(leaf_input, extra_data) built by the reference encoder from a generated PKI chain (x509 or precert, with / without pre-issuer; a leaf with a non-fatal parse complaint; a leaf / TBS in a shape only the relaxed ASN.1 rules accept - non-minimal serial INTEGER, Latin-1 in a PrintableString, zero-length OID - or as issued, followed by 0-3 stray bytes inside its vector; 1-40 random bytes in place of the certificate / TBS) or 0-80 + 0-40 random bytes, under 0-3 edits (set / insert / delete byte, truncate, append, version / leaf type / entry type codes incl. 0x8000, length fields +-1..3, extra_data of the other entry type, empty / absent extra_data); ct.RawLogEntryFromLeaf and ct.LogEntryFromLeaf judged against internal/rfc6962 (accept <=> both parts decode completely and, for LogEntryFromLeaf, the certificate parse is non-fatal and nothing follows the DER value inside its vector; on accept tls.Marshal(entry.Leaf) == leaf_input, chain / submitted precertificate / index equal the reference). Non-trivial: >= 1 edit or a base other than a clean chain",
+	Rule:  "(leaf_input, extra_data) built by the reference encoder from a generated PKI chain (x509 or precert, with / without pre-issuer; a leaf with a non-fatal parse complaint; a leaf / TBS in a shape only the relaxed ASN.1 rules accept - non-minimal serial INTEGER, Latin-1 in a PrintableString, zero-length OID - or as issued, followed by 0-3 stray bytes inside its vector; 1-40 random bytes in place of the certificate / TBS) or 0-80 + 0-40 random bytes, under 0-3 edits (set / insert / delete byte, truncate, append, version / leaf type / entry type codes incl. 0x8000, length fields +-1..3, extra_data of the other entry type, empty / absent extra_data, and structure-aware edits of extra_data with all enclosing lengths re-computed: a zero-length certificate inserted / substituted / as the only element / hidden among 50-1070 elements, zero-length pre_certificate, empty chain (legal), one-byte elements (legal minimum)); ct.RawLogEntryFromLeaf and ct.LogEntryFromLeaf judged against internal/rfc6962 (accept <=> both parts decode completely and, for LogEntryFromLeaf, the certificate parse is non-fatal and nothing follows the DER value inside its vector; on accept tls.Marshal(entry.Leaf) == leaf_input, chain / submitted precertificate / index equal the reference). Non-trivial: >= 1 edit or a base other than a clean chain",
 	Quick: 6000, Thorough: 20000,
 }, genDec, checkDec)
 
